@@ -66,6 +66,10 @@ type Case struct {
 	// (Server.Session(): in-process clients, one per proxy, no socket) instead of
 	// a network session; there every caller goroutine gets proxies of its own.
 	Local []int `json:"local,omitempty"`
+	// Oversized: at the end, through a session of its own, one call whose
+	// argument is just inside the size limit of a message and whose result is
+	// just outside: whatever becomes of it, the call gets one outcome
+	Oversized bool `json:"oversized,omitempty"`
 }
 
 func genCase(t *rapid.T) Case {
@@ -105,6 +109,7 @@ func genCase(t *rapid.T) Case {
 			c.Local = append(c.Local, s)
 		}
 	}
+	c.Oversized = rapid.IntRange(0, 24).Draw(t, "oversized") == 0
 	c.RemoveUnderLoad = rapid.Bool().Draw(t, "removeunderload")
 	c.Overload = rapid.IntRange(0, 3).Draw(t, "overload") == 0
 	if rapid.IntRange(0, 2).Draw(t, "observe") == 0 {
@@ -410,6 +415,34 @@ func checkCase(c Case) (verr error) {
 		if tag, ok := postIDs.Load(f.ID); ok {
 			return vt.Violationf("C04:post-answered", "post %v received a response frame %v", tag, f)
 		}
+	}
+	if c.Oversized {
+		tg := targets[0]
+		osess, err := session.NewAuthSession(env.Addr, "u", "t")
+		if err != nil {
+			return vt.Violationf("C04:setup", "session: %v", err)
+		}
+		defer osess.Terminate()
+		opx, err := osess.Proxy(tg.service, tg.objectID)
+		if err != nil {
+			return vt.Violationf("C04:proxy", "Proxy(%s,%d): %v", tg.service, tg.objectID, err)
+		}
+		tag := "big" + strings.Repeat("x", int(qnet.MaxPayloadSize)-4-1-3) // the request is one byte inside the limit, "r:"+tag is not
+		done := make(chan error, 1)
+		var res string
+		go func() { r, err := pong.MakePingPong(osess, opx).Hello(tag); res = r; done <- err }()
+		select {
+		case err := <-done:
+			if err == nil && res != "r:"+tag {
+				return vt.Violationf("C04:wrong-answer", "the call with a %d byte argument returned success with %d other bytes", len(tag), len(res))
+			}
+		case <-time.After(2 * bound):
+			return vt.Violationf("C04:no-outcome:oversized-result", "a call whose argument (%d bytes) fits in a message and whose result does not got no outcome within %v (its method ran %d times)\n%s", len(tag), 2*bound, env.Journal.Count("", "", tag), vt.BlockedInLibrary())
+		}
+		if n := env.Journal.Count("", "", tag); n > 1 {
+			return vt.Violationf("C04:execution-count", "the call with an oversized result ran %d times", n)
+		}
+		vt.Label("oversized-result-phase")
 	}
 	if c.Overload {
 		tg := targets[len(targets)-1]
